@@ -114,6 +114,20 @@ def gen_case(rng, k):
         changes = [STMT_CHANGES[0][1]] + [rng.choice(IMPORT_CHANGES[:5])[1] for _ in range(rng.randint(1, 2))]
         metas = [{"kind": "stmt", "name": "drop-commented"}] + [{"kind": "import", "name": "after-dropped-comment"} for _ in changes[1:]]
         flavour = "mixed"
+    if k % 7 == 4:
+        # an earlier change renames the package (and rewrites code), later changes match the same file: they must see the
+        # renamed file (guards on the new name hold, guards on the old one fail) and must not undo the rename
+        i, j, kk = rng.sample(range(5), 3)
+        first = "@@\nvar x expression\n@@\n-package p\n+package q\n\n-%s(x)\n+%s(x)\n" % (FN[i], FN[j])
+        rest = [rename(j, kk, rng.choice(["plain", "extra", "binary"]))[0],
+                "@@\nvar x expression\n@@\n package q\n\n-%s(x)\n+onlyq(x)\n" % FN[kk],
+                "@@\nvar x expression\n@@\n package p\n\n-%s(x)\n+onlyp(x)\n" % FN[kk]]
+        rng.shuffle(rest)
+        changes = [first] + rest[:rng.randint(1, 3)]
+        metas = [{"kind": "pkg-rename-code"}] + [{"kind": "after-pkg-rename"} for _ in changes[1:]]
+        extra.append("func pr() { %s(1); _ = %s(%s(2)) }" % (FN[i], FN[kk], FN[i]))
+        src = gen_file(rng, False, False, extra)
+        return changes, metas, src, MODES[(k // 7) % len(MODES)], None
     if k % 7 == 6:
         # comment-heavy files (the C17 generator) and sequences in which an earlier change loses comments: a growing
         # multi-line rewrite, then a declaration-level change next to commented declarations, then anything
